@@ -103,26 +103,26 @@ fn any_index(len: usize) -> usize {
 /// IPv4: 34 single-subnet lists (every mask), 108 nested pairs, 63 sibling pairs, 64 pseudo-random
 /// pairs, duplicates/extremes; every query address.
 #[kani::proof]
-#[kani::unwind(20)]
+#[kani::unwind(17)]
 fn c31_v4() {
     check4(&V4_QUICK[any_index(V4_QUICK.len())]);
 }
 /// IPv4 thorough: all 33 x 33 mask pairs of the nested pair in both orders, 1024 pseudo-random pairs.
 #[kani::proof]
-#[kani::unwind(20)]
+#[kani::unwind(17)]
 fn c31_v4_full() {
     check4(&V4_FULL[any_index(V4_FULL.len())]);
 }
 /// IPv6: selected masks incl. 0, 1, 127, 128; sibling pairs at the top, around /64 and at the bottom;
 /// nested pairs; pseudo-random pairs; every query address.
 #[kani::proof]
-#[kani::unwind(80)]
+#[kani::unwind(48)]
 fn c31_v6() {
     check6(&V6_QUICK[any_index(V6_QUICK.len())]);
 }
 /// IPv6 thorough: every mask 0..=128, every sibling pair, more nested and pseudo-random pairs.
 #[kani::proof]
-#[kani::unwind(80)]
+#[kani::unwind(56)]
 fn c31_v6_full() {
     check6(&V6_FULL[any_index(V6_FULL.len())]);
 }
@@ -155,5 +155,20 @@ fn c31_parse_v4() {
             assert!(mask > 32, "rejected a well-formed IPv4 subnet");
             kani::cover!(mask == 33, "rejected /33");
         }
+    }
+}
+
+#[kani::proof]
+#[kani::unwind(17)]
+fn probe_c31_sym32() {
+    check4(&V4_QUICK[any_index(32)]);
+}
+#[kani::proof]
+#[kani::unwind(17)]
+fn probe_c31_conc16() {
+    let mut i = 40;
+    while i < 56 {
+        check4(&V4_QUICK[i]);
+        i += 1;
     }
 }
